@@ -365,9 +365,13 @@ pub struct HdrPlan {
     pub rt: RtKnobs,
     pub name: String,
     pub value: String,
+    /// query part of the URL ("" = none)
+    #[serde(default)]
+    pub query: String,
 }
 
 const RESERVED: [&str; 5] = [":method", ":scheme", ":protocol", ":authority", ":path"];
+const CASEVAR: [&str; 8] = [":Path", ":PATH", ":Method", ":AUTHORITY", ":Authority", ":Scheme", ":pRotocol", ":patH"];
 const NEAR: [&str; 14] = ["method", "scheme", "protocol", "authority", "path", ":methodx", "x:method", ":status", ":pathx", "path:", "x-method", ":me", "origin", "user-agent"];
 
 pub fn exec_hdr(p: &HdrPlan, trace: bool) -> Exec {
@@ -392,7 +396,8 @@ pub fn exec_hdr(p: &HdrPlan, trace: bool) -> Exec {
             });
             Ok::<_, String>(seen)
         };
-        let opts = ConnectOptions::builder(harness::default_url()).add_header(p.name.clone(), p.value.clone()).build();
+        let url = if p.query.is_empty() { harness::default_url() } else { format!("{}?{}", harness::default_url(), p.query) };
+        let opts = ConnectOptions::builder(url).add_header(p.name.clone(), p.value.clone()).build();
         let client = async { pair.client_ep.connect(opts).await };
         tokio::select! {
             (s, c) = async { tokio::join!(server, client) } => (Some(s), Some(c.map(|_| ()).map_err(|e| match e { ConnectingError::ReservedHeader(h) => format!("ReservedHeader:{h}"), other => format!("{other:?}") }))),
@@ -406,6 +411,16 @@ pub fn exec_hdr(p: &HdrPlan, trace: bool) -> Exec {
     }
     ex.nontrivial = true;
     let reserved = RESERVED.contains(&p.name.as_str());
+    let case_variant = !reserved && RESERVED.contains(&p.name.to_ascii_lowercase().as_str());
+    let url_path = if p.query.is_empty() { "/sim".to_string() } else { format!("/sim?{}", p.query) };
+    let pseudo_intact = |ex: &mut Exec, seen: &std::collections::HashMap<String, String>| {
+        let want = [(":method", "CONNECT"), (":scheme", "https"), (":protocol", "webtransport"), (":authority", harness::SERVER_ADDR), (":path", url_path.as_str())];
+        for (n, want) in want {
+            if seen.get(n).map(|s| s.as_str()) != Some(want) {
+                ex.violation("C18/pseudo-header-overridden", format!("with additional header {:?}={:?} the server saw {n}={:?}, the URL says {want:?}", p.name, p.value, seen.get(n)));
+            }
+        }
+    };
     match out.value {
         Some((_, Some(Err(e)))) if reserved => {
             if e != format!("ReservedHeader:{}", p.name) {
@@ -413,15 +428,24 @@ pub fn exec_hdr(p: &HdrPlan, trace: bool) -> Exec {
             }
             ex.probe("reserved_refused", 1);
         }
+        // a reserved name in another letter case: refusing it, failing the request or passing it
+        // on as an ordinary field are all within the property - overriding the pseudo-header
+        // the server application sees is not
+        Some((s, c)) if case_variant => {
+            if let Some(Ok(seen)) = &s {
+                pseudo_intact(&mut ex, seen);
+                ex.probe("case_variant_reached_server", 1);
+            } else {
+                ex.probe("case_variant_refused", 1);
+            }
+            let _ = c;
+        }
+        None if case_variant => ex.probe("case_variant_refused", 1),
         Some((Some(Ok(seen)), Some(Ok(())))) if !reserved => {
             if seen.get(&p.name) != Some(&p.value) {
                 ex.violation("C18/header-not-delivered", format!("additional header {:?}={:?} not seen by the server: {:?}", p.name, p.value, seen.get(&p.name)));
             }
-            for (n, want) in [(":method", "CONNECT"), (":scheme", "https"), (":protocol", "webtransport")] {
-                if seen.get(n).map(|s| s.as_str()) != Some(want) {
-                    ex.violation("C18/pseudo-header-overridden", format!("with additional header {:?} the server saw {n}={:?}", p.name, seen.get(n)));
-                }
-            }
+            pseudo_intact(&mut ex, &seen);
             ex.probe("non_reserved_passed", 1);
         }
         Some((s, c)) if reserved => ex.violation("C18/reserved-header-accepted", format!("add_header({:?}) was not refused: server {:?}, client {:?}", p.name, s.map(|x| x.map(|_| ())), c)),
@@ -446,8 +470,8 @@ impl TypedScenario for C18Hdr {
     }
     fn budget(&self, tier: Tier) -> usize {
         match tier {
-            Tier::Quick => RESERVED.len() + NEAR.len() + 100,
-            Tier::Thorough => RESERVED.len() + NEAR.len() + 5000,
+            Tier::Quick => RESERVED.len() + NEAR.len() + CASEVAR.len() + 150,
+            Tier::Thorough => RESERVED.len() + NEAR.len() + CASEVAR.len() + 5000,
         }
     }
     fn generate(&self, seed: u64, index: usize, _tier: Tier) -> HdrPlan {
@@ -456,18 +480,36 @@ impl TypedScenario for C18Hdr {
             RESERVED[index].to_string()
         } else if index < RESERVED.len() + NEAR.len() {
             NEAR[index - RESERVED.len()].to_string()
-        } else if rng.chance_pm(300) {
-            rng.pick(&RESERVED).to_string()
+        } else if index < RESERVED.len() + NEAR.len() + CASEVAR.len() {
+            CASEVAR[index - RESERVED.len() - NEAR.len()].to_string()
         } else {
-            format!("{}{}", rng.pick(&NEAR), rng.range(0, 99))
+            match rng.below(10) {
+                0..=2 => rng.pick(&RESERVED).to_string(),
+                // a reserved name with a random non-empty subset of its letters in upper case
+                3..=5 => {
+                    let base = rng.pick(&RESERVED).to_string();
+                    let mut out: String = base.chars().map(|c| if rng.chance_pm(400) { c.to_ascii_uppercase() } else { c }).collect();
+                    if out == base {
+                        out = base.to_ascii_uppercase();
+                    }
+                    out
+                }
+                _ => format!("{}{}", rng.pick(&NEAR), rng.range(0, 99)),
+            }
         };
-        HdrPlan { seed, rt: RtKnobs::from_rng(&mut rng), name, value: format!("value-{}", rng.range(0, 9999)) }
+        let value = match rng.below(4) {
+            0 => "/admin".to_string(),
+            1 => "internal.example".to_string(),
+            _ => format!("value-{}", rng.range(0, 9999)),
+        };
+        let query = if rng.chance_pm(400) { format!("id={}&x=a%20b", rng.range(0, 999)) } else { String::new() };
+        HdrPlan { seed, rt: RtKnobs::from_rng(&mut rng), name, value, query }
     }
     fn execute(&self, plan: &HdrPlan, trace: bool) -> Exec {
         exec_hdr(plan, trace)
     }
     fn exhaustive_prefix(&self, _tier: Tier) -> Option<usize> {
-        Some(RESERVED.len() + NEAR.len())
+        Some(RESERVED.len() + NEAR.len() + CASEVAR.len())
     }
 }
 
@@ -475,7 +517,7 @@ pub fn def() -> PropertyDef {
     PropertyDef {
         id: "C18",
         scenarios: vec![Box::new(Typed(C18Req)), Box::new(Typed(C18Status)), Box::new(Typed(C18Hdr))],
-        rule: "raw-request-admission: raw client sends a request whose five pseudo-headers are each right / missing / wrong (exhaustive grid of 6x5x5x3x3 = 1350 combinations, then sampled single-defect requests with arbitrary extra fields and all four QPACK encoding styles); oracle: offered to the application iff CONNECT + https + webtransport + authority + path (authority, path and extras delivered intact); otherwise that stream is refused with STOP_SENDING H3_REQUEST_REJECTED or H3_MESSAGE_ERROR, the application never sees it, and a following valid request on the same connection establishes a session that ends cleanly. raw-response-status: raw server answers the real client's CONNECT with a :status string — quick: every integer 0..1099 and 65436..65535, thorough: every integer 0..65535; plus signs, spaces, empty, non-digits, non-ASCII digits, huge numbers, and no :status at all; oracle: session iff a three-digit integer in 200..=299; 'session rejected' iff three digits in 100..=599 otherwise; everything else is malformed: connect() fails (not as a rejection) and the connection is closed with H3_MESSAGE_ERROR; in-range integers written with leading zeros are unconstrained. e2e-reserved-headers: ConnectOptions::add_header with each reserved pseudo-header and near-reserved names; oracle: ReservedHeader error exactly for the five reserved names, other names reach the server and never override :method/:scheme/:protocol. Every run is non-trivial; distinct = distinct plan hashes. Not covered here (pure functions): the numeric TryFrom<u8|u16|u32|u64> constructors.",
+        rule: "raw-request-admission: raw client sends a request whose five pseudo-headers are each right / missing / wrong (exhaustive grid of 6x5x5x3x3 = 1350 combinations, then sampled single-defect requests with arbitrary extra fields and all four QPACK encoding styles); oracle: offered to the application iff CONNECT + https + webtransport + authority + path (authority, path and extras delivered intact); otherwise that stream is refused with STOP_SENDING H3_REQUEST_REJECTED or H3_MESSAGE_ERROR, the application never sees it, and a following valid request on the same connection establishes a session that ends cleanly. raw-response-status: raw server answers the real client's CONNECT with a :status string — quick: every integer 0..1099 and 65436..65535, thorough: every integer 0..65535; plus signs, spaces, empty, non-digits, non-ASCII digits, huge numbers, and no :status at all; oracle: session iff a three-digit integer in 200..=299; 'session rejected' iff three digits in 100..=599 otherwise; everything else is malformed: connect() fails (not as a rejection) and the connection is closed with H3_MESSAGE_ERROR; in-range integers written with leading zeros are unconstrained. e2e-reserved-headers: ConnectOptions::add_header with each reserved pseudo-header, near-reserved names and reserved names in other letter cases (:Path, :AUTHORITY, random case subsets), on URLs with and without a query; oracle: ReservedHeader error exactly for the five reserved names; other names reach the server intact; whatever reaches the server application carries :method CONNECT, :scheme https, :protocol webtransport and exactly the URL's authority and path-plus-query (a case variant may be refused, fail or pass as an ordinary field, but never changes those five). Every run is non-trivial; distinct = distinct plan hashes. Not covered here (pure functions): the numeric TryFrom<u8|u16|u32|u64> constructors.",
         assumptions: vec![
             "raw peer + reference codec are harness code; current-thread runtime; fault-free network",
             "the numeric StatusCode constructors are pure functions and are not simulation targets",
